@@ -4,5 +4,6 @@ import ShootVerif.Drive.Opt
 import ShootVerif.Drive.GetSet
 import ShootVerif.Drive.Json
 import ShootVerif.Drive.C01
+import ShootVerif.Drive.Transfer
 open ShootVerif.Drive
-def main : IO Unit := runDriver [("ctor", ctorCase), ("opt", optCase), ("getset", getsetCase), ("json", jsonCase), ("c01new", c01newCase)]
+def main : IO Unit := runDriver [("ctor", ctorCase), ("opt", optCase), ("getset", getsetCase), ("json", jsonCase), ("c01new", c01newCase), ("transfer", transferCase)]
